@@ -901,6 +901,24 @@ def foreign_method(interp, obj, owner, name, node):
     if owner in ("object", "Generic", "typing.Generic", "t.Generic") or name in ("__init__",) and owner in ("object",):
         if name == "__init__":
             return B("object.__init__", lambda it, a, k, n: NONE, obj)
+        if name == "__setattr__":
+            def osetattr(it, a, k, n):
+                o, nm, v = a[0], concrete_str(it.need(a[1]).z), a[2]
+                if nm is None:
+                    raise Unsupported("object.__setattr__ with a symbolic attribute name")
+                # data descriptors (property setters) of the class take precedence, as in CPython
+                if isinstance(o.cls, ClassInfo):
+                    ow, found = o.cls.find_method(nm)
+                    if isinstance(found, list):
+                        for fn in found:
+                            if f"{nm}.setter" in [ast.unparse(d) for d in fn.decorator_list]:
+                                f = VFunc(fn, ow.module, None, f"{ow.name}.{nm}", ow)
+                                it.call(f.bind(o), [v], {}, n)
+                                return NONE
+                it.frame_write(o, nm)
+                o.fields[nm] = v
+                return NONE
+            return B("object.__setattr__", osetattr, obj)
     raise Unsupported(f"method {name!r} inherited from foreign base {owner!r} (line {getattr(node, 'lineno', '?')})")
 
 
